@@ -1,7 +1,7 @@
 (* Props/C02.v -- statements claimed for C02 (mass matrix = exact PL L2 product). *)
-From Coq Require Import List Reals.
+From Coq Require Import List Reals Permutation.
 From LaPyV Require Import Base.Scalar Base.Vec3 Base.ListAux Base.Sparse Model.TetMesh Model.Fem
-  Proofs.SparseP Proofs.TetMeshP Proofs.FemTriaP Proofs.FemTetP Proofs.FemMassEqP.
+  Proofs.SparseP Proofs.TetMeshP Proofs.FemTriaP Proofs.FemTetP Proofs.FemMassEqP Proofs.FemInvarP Proofs.FemTetInvarP Proofs.MassInvarP.
 Import ListNotations.
 Open Scope R_scope.
 
@@ -75,3 +75,26 @@ Theorem C02_fem_tria_mass_equals_solver_mass : forall lump v ts, tria_nondeg v t
   fem_tria_mass Rops lump v ts = fem_tria_B Rops lump v ts.
 Proof. exact fem_tria_mass_is_solver_mass. Qed.
 Print Assumptions C02_fem_tria_mass_equals_solver_mass.
+
+(* ---- invariance under the way the mesh is written down (full and lumped): any of the six orders of the indices of each triangle
+   and any reordering of the triangles ... *)
+Theorem C02_tria_mass_invariant_under_index_order : forall lump v ts ts' f g, tria_nondeg v ts -> Forall2 variant ts ts' ->
+  tria_nondeg v ts' /\ bil f (fem_tria_B Rops lump v ts') g = bil f (fem_tria_B Rops lump v ts) g.
+Proof. exact tria_mass_invariant_under_index_order. Qed.
+Print Assumptions C02_tria_mass_invariant_under_index_order.
+
+Theorem C02_tria_mass_invariant_under_element_reordering : forall lump v ts ts' f g, tria_nondeg v ts -> Permutation ts ts' ->
+  tria_nondeg v ts' /\ bil f (fem_tria_B Rops lump v ts') g = bil f (fem_tria_B Rops lump v ts) g.
+Proof. exact tria_mass_invariant_under_element_order. Qed.
+Print Assumptions C02_tria_mass_invariant_under_element_reordering.
+
+(* ... and any of the 24 orders of the indices of each tetrahedron (either orientation), any reordering of the tetrahedra *)
+Theorem C02_tet_mass_invariant_under_index_order : forall lump v ts ts' f g, tet_nondeg v ts -> Forall2 tvariant ts ts' ->
+  tet_nondeg v ts' /\ bil f (fem_tet_B Rops lump v ts') g = bil f (fem_tet_B Rops lump v ts) g.
+Proof. exact tet_mass_invariant_under_index_order. Qed.
+Print Assumptions C02_tet_mass_invariant_under_index_order.
+
+Theorem C02_tet_mass_invariant_under_element_reordering : forall lump v ts ts' f g, tet_nondeg v ts -> Permutation ts ts' ->
+  tet_nondeg v ts' /\ bil f (fem_tet_B Rops lump v ts') g = bil f (fem_tet_B Rops lump v ts) g.
+Proof. exact tet_mass_invariant_under_element_order. Qed.
+Print Assumptions C02_tet_mass_invariant_under_element_reordering.
